@@ -202,7 +202,7 @@ func verifC07SRecs(recs []ch.Record) string {
 	return b.String()
 }
 
-func (h *verifC07SH) doAppendPlain(ci int, recs []ch.Record, serverIDs bool) {
+func (h *verifC07SH) doAppendPlain(ci int, recs []ch.Record, serverIDs bool) bool {
 	c := h.chans[ci]
 	ok, why := h.acceptable(ci, recs, !serverIDs)
 	h.note("append(%d,server=%v,[%s])→%v", ci, serverIDs, verifC07SRecs(recs), ok)
@@ -213,7 +213,7 @@ func (h *verifC07SH) doAppendPlain(ci int, recs []ch.Record, serverIDs bool) {
 			h.fail("append to %q must be rejected (%s): got %+v err=%v", c.key, why, res, err)
 		}
 		h.nRej++
-		return
+		return false
 	}
 	want := AppendLeaderResult{BaseOffset: c.leo + 1, LastOffset: c.leo + uint64(len(recs)), Outcome: AppendOutcomeDurable}
 	if err != nil || res != want {
@@ -227,6 +227,7 @@ func (h *verifC07SH) doAppendPlain(ci int, recs []ch.Record, serverIDs bool) {
 	if len(recs) > 0 {
 		h.nAppendOK++
 	}
+	return true
 }
 
 func (h *verifC07SH) manifestFor(ci int, recs []ch.Record, term uint64) ProposalManifest {
@@ -247,7 +248,7 @@ func (h *verifC07SH) manifestFor(ci int, recs []ch.Record, term uint64) Proposal
 }
 
 // doAppendExact: a fresh exact-base proposal at the log end.
-func (h *verifC07SH) doAppendExact(ci int, recs []ch.Record, committed uint64) {
+func (h *verifC07SH) doAppendExact(ci int, recs []ch.Record, committed uint64, serverIDs bool) bool {
 	c := h.chans[ci]
 	term := uint64(5)
 	if n := len(c.chain); n > 0 {
@@ -256,17 +257,17 @@ func (h *verifC07SH) doAppendExact(ci int, recs []ch.Record, committed uint64) {
 	for i := range recs {
 		recs[i].Epoch = 3
 	}
-	ok, why := h.acceptable(ci, recs, true)
+	ok, why := h.acceptable(ci, recs, !serverIDs)
 	m := h.manifestFor(ci, recs, term)
-	req := AppendLeaderRequest{Records: recs, ExactBaseOffset: true, ExpectedBaseOffset: c.leo, Proposal: m, Committed: committed}
-	h.note("exact(%d,base=%d,committed=%d,[%s])→%v", ci, c.leo, committed, verifC07SRecs(recs), ok)
+	req := AppendLeaderRequest{Records: recs, ExactBaseOffset: true, ExpectedBaseOffset: c.leo, Proposal: m, Committed: committed, ServerAllocatedMessageIDs: serverIDs}
+	h.note("exact(%d,base=%d,committed=%d,server=%v,[%s])→%v", ci, c.leo, committed, serverIDs, verifC07SRecs(recs), ok)
 	res, err := h.store(ci).AppendLeader(h.ctx, req)
 	if !ok {
 		if !errors.Is(err, ch.ErrLogConflict) || res.Outcome != AppendOutcomeConflict {
 			h.fail("exact append to %q must be rejected (%s): got %+v err=%v", c.key, why, res, err)
 		}
 		h.nRej++
-		return
+		return false
 	}
 	want := AppendLeaderResult{BaseOffset: c.leo + 1, LastOffset: m.LastOffset, Outcome: AppendOutcomeDurable}
 	if err != nil || res != want {
@@ -284,6 +285,7 @@ func (h *verifC07SH) doAppendExact(ci int, recs []ch.Record, committed uint64) {
 	}
 	h.nExact++
 	h.nAppendOK++
+	return true
 }
 
 // doReplayExact re-sends an already durable proposal (retry) or a proposal
@@ -791,6 +793,38 @@ func TestVerifC07StoreAdapters(t *testing.T) {
 			}
 			return uint64(rapid.IntRange(0, int(leo)).Draw(rt, label))
 		}
+		// boundary: a byte budget exactly on (or one off) the sum of the first
+		// k payloads the scan will visit
+		boundary := func(rt *rapid.T, ci int, from uint64, reverse bool, label string) int {
+			c := h.chans[ci]
+			var lens []int
+			if reverse {
+				hi := from
+				if hi == 0 {
+					hi = c.leo
+				}
+				for i := len(c.rows) - 1; i >= 0; i-- {
+					if hi == 0 || c.rows[i].Index <= hi {
+						lens = append(lens, len(c.rows[i].Payload))
+					}
+				}
+			} else {
+				for _, r := range c.rows {
+					if r.Index >= from {
+						lens = append(lens, len(r.Payload))
+					}
+				}
+			}
+			if len(lens) == 0 {
+				return rapid.IntRange(1, 64).Draw(rt, label+"Any")
+			}
+			k := rapid.IntRange(1, min(len(lens), 6)).Draw(rt, label+"K")
+			sum := rapid.IntRange(-1, 1).Draw(rt, label+"Delta")
+			for _, n := range lens[:k] {
+				sum += n
+			}
+			return max(sum, 1)
+		}
 		actions := map[string]func(*rapid.T){
 			"appendPlain": func(rt *rapid.T) {
 				ci := pick(rt, false)
@@ -803,7 +837,8 @@ func TestVerifC07StoreAdapters(t *testing.T) {
 			},
 			"appendExact": func(rt *rapid.T) {
 				ci := pick(rt, true)
-				recs := genRecs(rt, ci, rapid.IntRange(0, 3).Draw(rt, "collide") == 0)
+				server := rapid.Bool().Draw(rt, "serverIDs")
+				recs := genRecs(rt, ci, !server && rapid.IntRange(0, 3).Draw(rt, "collide") == 0)
 				if c := h.chans[ci]; len(c.rows) > 0 && rapid.IntRange(0, 4).Draw(rt, "collideKey") == 0 {
 					old := c.rows[rapid.IntRange(0, len(c.rows)-1).Draw(rt, "oldRow")]
 					i := rapid.IntRange(0, len(recs)-1).Draw(rt, "victim")
@@ -813,7 +848,7 @@ func TestVerifC07StoreAdapters(t *testing.T) {
 				if rapid.Bool().Draw(rt, "withCommitted") {
 					committed = uint64(rapid.IntRange(0, int(h.chans[ci].leo)+len(recs)).Draw(rt, "committed"))
 				}
-				h.doAppendExact(ci, recs, committed)
+				h.doAppendExact(ci, recs, committed, server)
 			},
 			"replayExact": func(rt *rapid.T) {
 				ci := pick(rt, true)
@@ -871,6 +906,9 @@ func TestVerifC07StoreAdapters(t *testing.T) {
 				}
 				if rapid.IntRange(0, 2).Draw(rt, "hasMaxBytes") == 0 {
 					opts.MaxBytes = rapid.IntRange(1, 2*maxPay).Draw(rt, "maxBytes")
+					if rapid.Bool().Draw(rt, "boundaryBudget") {
+						opts.MaxBytes = boundary(rt, ci, 0, false, "trimBudget")
+					}
 				}
 				h.doTrim(ci, through, opts)
 			},
@@ -898,11 +936,20 @@ func TestVerifC07StoreAdapters(t *testing.T) {
 				if rapid.Bool().Draw(rt, "hasLimit") {
 					limit = rapid.IntRange(1, 8).Draw(rt, "limit")
 				}
+				from, reverse := near(rt, ci, "from"), rapid.Bool().Draw(rt, "reverse")
 				if rapid.Bool().Draw(rt, "hasMaxBytes") {
 					maxBytes = rapid.IntRange(1, 2*maxPay).Draw(rt, "maxBytes")
+					if rapid.Bool().Draw(rt, "boundaryBudget") {
+						maxBytes = boundary(rt, ci, from, reverse, "budget")
+					}
 				}
-				h.checkReadCommitted(ci, near(rt, ci, "from"), limit, maxBytes, rapid.Bool().Draw(rt, "reverse"))
-				h.checkReadLog(ci, near(rt, ci, "lfrom"), near(rt, ci, "lmax"), rapid.IntRange(1, 4*maxPay).Draw(rt, "logBytes"))
+				h.checkReadCommitted(ci, from, limit, maxBytes, reverse)
+				lfrom := near(rt, ci, "lfrom")
+				logBytes := rapid.IntRange(1, 4*maxPay).Draw(rt, "logBytes")
+				if rapid.Bool().Draw(rt, "boundaryLogBudget") {
+					logBytes = boundary(rt, ci, lfrom, false, "logBudget")
+				}
+				h.checkReadLog(ci, lfrom, near(rt, ci, "lmax"), logBytes)
 			},
 			"lookups": func(rt *rapid.T) {
 				ci := anyCh(rt)
